@@ -191,7 +191,7 @@ def cli_case(ctx, rng, sc):
 
 
 def run(ctx):
-    n = 8 if ctx.thorough else 1
+    n = 16 if ctx.thorough else 1
     check(ctx, "stream-random", [gen(ctx.rng) for _ in range(500 * n)])
     with F.Scratch() as sc:
         for _ in range(40 * n):
